@@ -288,10 +288,18 @@ func (ft *FT) Query(o *Obligation) string {
 	head, lfacts := ft.background()
 	excluded := ft.excludedInvFacts(o)
 	var all []*T
+	// An obligation only sees what was established before its program point:
+	// facts generated later (postconditions of the very call whose
+	// precondition is being proved, invariants of later loops, ...) describe
+	// executions that got past this point and must not justify it.
 	for i, f := range ft.facts {
-		if !excluded[i] {
-			all = append(all, f)
+		if excluded[i] {
+			continue
 		}
+		if o.Kind != "lemma" && o.Kind != "vacuity" && i >= o.nfacts && !ft.timeless[i] {
+			continue
+		}
+		all = append(all, f)
 	}
 	all = append(all, lfacts...)
 	all = append(all, o.Extra...)
